@@ -170,6 +170,9 @@ def b_len(ip, args, kw, ctx):
     if isinstance(v, PyDict):
         return len(v.d)
     if isinstance(v, PySet):
+        if getattr(v, "deferred", None) is not None:
+            from .schedmodel import sched_method
+            return sched_method(ip, v.deferred, "__len__", [], {}, ctx)
         return len(v.s)
     for mm in ip.method_models:
         r = mm(ip, v, "__len__", [], {}, ctx)
@@ -644,11 +647,14 @@ def b_enumerate(ip, args, kw, ctx):
     return PyList([(i, x) for i, x in enumerate(ip.iterate(args[0], ctx))])
 
 
+class HashOf:
+    """hash(x): only what was hashed is remembered"""
+    def __init__(self, v):
+        self.v = v
+
+
 def b_hash(ip, args, kw, ctx):
-    v = args[0]
-    if isinstance(v, (str, int)):
-        return ("hash", v)
-    raise _uns("hash()")
+    return HashOf(args[0])
 
 
 def b_chr(ip, args, kw, ctx):
@@ -950,16 +956,21 @@ def set_method(ip, o, name, args, kw, ctx):
         raise _uns(f"{name} on a symbolic-length enum sequence")
     if not isinstance(o, PySet):
         return NotImplemented
+    if getattr(o, "deferred", None) is not None and name in ("__len__", "__bool__"):
+        from .schedmodel import sched_method
+        return sched_method(ip, o.deferred, name, args, kw, ctx)
     if name == "add":
         x = args[0]
         if isinstance(x, Obj):
-            # user objects with __eq__/__hash__: keep the first of equal elements
-            for y in list(o.s):
-                if isinstance(y, ObjKey):
-                    if ctx.branch(ip.truth(ip.equals(y.obj, x, ctx), ctx)):
-                        return None
-            o.s.add(ObjKey(x))
-            return None
+            # user objects with __eq__/__hash__: deferred de-duplication (no path fork), see pyvc/schedmodel.py
+            from .schedmodel import DeferredSet, sched_method
+            d = getattr(o, "deferred", None)
+            if d is None:
+                if o.s:
+                    raise _uns("mixing plain and object elements in a set")
+                d = DeferredSet()
+                o.deferred = d
+            return sched_method(ip, d, "add", [x], {}, ctx)
         o.s.add(ip.concrete_key(x, ctx))
         return None
     if name == "discard":
